@@ -383,6 +383,10 @@ def store_census(fn, expect):
                 b = b.value
             if isinstance(b, ast.Name):
                 c[b.id] += 1
+    # statement-level calls (helper invocations whose result is dropped: validation hooks, in-place helpers), raises and asserts
+    c["__bare_calls__"] = sum(1 for n in ast.walk(fn) if isinstance(n, ast.Expr) and isinstance(n.value, ast.Call))
+    c["__raises__"] = sum(1 for n in ast.walk(fn) if isinstance(n, ast.Raise))
+    c["__asserts__"] = sum(1 for n in ast.walk(fn) if isinstance(n, ast.Assert))
     bad = {k: (v, c.get(k, 0)) for k, v in expect.items() if c.get(k, 0) != v}
     if bad:
         raise Untranslatable("%s: the number of writes to %s differs from what the model assumes (expected, found): %s"
